@@ -485,6 +485,14 @@ impl<'a> GeneratorState<'a> {
             Expr::BinOp { lhs, op, rhs } => match op {
                 Operation::Assign => {
                     let left = self.generate_expr(lhs, pos, high_byte, high_byte)?;
+                    if high_byte {
+                        if let ExprType::Absolute(_, true, _) = left {
+                            // High byte pass of an enclosing 16 bits expression: this 8 bits
+                            // variable has been assigned by the low byte pass, and the high
+                            // byte of the expression is the high byte of its value
+                            return Ok(left);
+                        }
+                    }
                     let right = self.generate_expr(rhs, pos, high_byte, high_byte)?;
                     let ret = self.generate_assign(&left, &right, pos, high_byte);
                     if self.saved_y {
